@@ -142,6 +142,12 @@ func (fs *FileStorage) GetMessages(offset uint64) ([]storage.Message, error) {
 	)
 	fs.mu.Lock()
 	defer fs.mu.Unlock()
+	// Readers take the board lock like writers do: an append of another handle or process becomes
+	// visible piecemeal, and a read that runs into it fails on the torn line (which ends Poll).
+	if err = fs.lockFile.Lock(); err != nil {
+		return nil, fmt.Errorf("failed to lock a file:  %w", err)
+	}
+	defer fs.lockFile.Unlock()
 	// Read through a descriptor of our own: the handle's descriptor is the one send() rewinds and
 	// counts lines on, and a node polls the board while its API handlers post through the same
 	// handle - sharing the file position makes send() assign wrong offsets.
